@@ -306,14 +306,14 @@ def r3_revert_structure(ctx, rid="C02.R3", title="structure of State.revert (ful
               "snapshot cleared after the partial revert", "snapshot not cleared after the partial revert", construct="clear after partial revert")
 
 
-def r4_selection(ctx):
-    ctx.rule("C02.R4", "partial revert selects old/current values with the mask (no arithmetic blend)", 1)
-    f, cfg, subset, (gh, glab) = _revert_facts(ctx, "C02.R4")
+def r4_selection(ctx, rid="C02.R4"):
+    ctx.rule(rid, "partial revert selects old/current values with the mask (no arithmetic blend)", 1)
+    f, cfg, subset, (gh, glab) = _revert_facts(ctx, rid)
     defs = local_defs(f.node)
     FORK, _ = _fork_aliases(f, cfg)
     loops = [s for s in statements(f.node) if isinstance(s, ast.For) and U(s.iter) in {f"{x}.items()" for x in FORK}]
     if not loops:
-        raise AnalysisError("C02.R4", "anchor vanished: loop over self._last_fork.items() in State.revert")
+        raise AnalysisError(rid, "anchor vanished: loop over self._last_fork.items() in State.revert")
     lp = loops[0]
     kname, oldname = U(lp.target.elts[0]), U(lp.target.elts[1])
     curnames = {n for n, vs in defs.items() if any(v is not None and U(v) == f"self._values[{kname}]" for v in vs)}
@@ -377,10 +377,10 @@ def r4_selection(ctx):
             p = polarity(v.args[0])
             a, b = side(v.args[1]), side(v.args[2])
             if p is None or a is None or b is None or a == b:
-                ctx.unknown("C02.R4", f, st, f"cannot classify the operands of the selection: mask polarity {p}, operands {a}/{b}")
+                ctx.unknown(rid, f, st, f"cannot classify the operands of the selection: mask polarity {p}, operands {a}/{b}")
                 continue
             good = (p == 1 and a == "old" and b == "cur") or (p == -1 and a == "cur" and b == "old")
-            ctx.check(good, "C02.R4", f, st, "torch.where(mask-of-reverted, old, current): rejected rows get exactly their old value",
+            ctx.check(good, rid, f, st, "torch.where(mask-of-reverted, old, current): rejected rows get exactly their old value",
                       "selection has the old value on the KEPT side: reverted individuals keep the proposal and accepted ones lose it")
         elif isinstance(v, ast.Call) and isinstance(v.func, ast.Attribute) and v.func.attr == "where" and len(v.args) == 2 and side(v.func.value) is not None:
             # method form  a.where(mask, b)  ==  torch.where(mask, a, b) for plain tensors; a (possibly) WeightedTensor receiver dispatches to a
@@ -394,26 +394,26 @@ def r4_selection(ctx):
                 sel = [x for x in ast.walk(wm.node) if isinstance(x, ast.Call) and U(x.func) in ("torch.where",) or (isinstance(x, ast.Call) and isinstance(x.func, ast.Attribute) and x.func.attr == "where"
                                                                                                                   and U(x.func.value) not in ("self",))]
                 if blend:
-                    ctx.violation("C02.R4", wm, blend[0], f"`WeightedTensor.where` (used by the per-individual revert) blends arithmetically (`{U(blend[0])[:60]}`): a non-finite proposed value "
+                    ctx.violation(rid, wm, blend[0], f"`WeightedTensor.where` (used by the per-individual revert) blends arithmetically (`{U(blend[0])[:60]}`): a non-finite proposed value "
                                   "gives NaN (inf*0) in the rows being reverted instead of their old value")
                     continue
                 if not sel:
-                    ctx.unknown("C02.R4", wm, wm.node, "WeightedTensor.where is neither a torch.where selection nor an arithmetic blend")
+                    ctx.unknown(rid, wm, wm.node, "WeightedTensor.where is neither a torch.where selection nor an arithmetic blend")
                     continue
             if p is None or a is None or b is None or a == b:
-                ctx.unknown("C02.R4", f, st, f"cannot classify the operands of the selection: mask polarity {p}, operands {a}/{b}")
+                ctx.unknown(rid, f, st, f"cannot classify the operands of the selection: mask polarity {p}, operands {a}/{b}")
                 continue
             good = (p == 1 and a == "old" and b == "cur") or (p == -1 and a == "cur" and b == "old")
-            ctx.check(good, "C02.R4", f, st, "a.where(mask-of-reverted, current) with a = old: rejected rows get exactly their old value",
+            ctx.check(good, rid, f, st, "a.where(mask-of-reverted, current) with a = old: rejected rows get exactly their old value",
                       "selection has the old value on the KEPT side: reverted individuals keep the proposal and accepted ones lose it")
         elif any(isinstance(x, ast.BinOp) and isinstance(x.op, (ast.Mult, ast.Add)) for x in ast.walk(v)) and oldname in {
                 x.id for x in ast.walk(v) if isinstance(x, ast.Name)}:
-            ctx.violation("C02.R4", f, st, "arithmetic blend old*mask + current*~mask: a non-finite proposed value gives NaN (inf*0) in the rows being "
+            ctx.violation(rid, f, st, "arithmetic blend old*mask + current*~mask: a non-finite proposed value gives NaN (inf*0) in the rows being "
                           "reverted instead of their old value")
         else:
-            ctx.unknown("C02.R4", f, st, "unrecognised idiom for the per-individual restore")
+            ctx.unknown(rid, f, st, "unrecognised idiom for the per-individual restore")
     if n == 0:
-        ctx.violation("C02.R4", f, lp, "partial revert never restores a value")
+        ctx.violation(rid, f, lp, "partial revert never restores a value")
     # alignment of the mask: the individuals are on the leading axis, so the (n_individuals,) mask gets exactly old.ndim - mask.ndim trailing axes
     rb = [a.arg for a in f.node.args.args + f.node.args.kwonlyargs if a.arg == "right_broadcasting"]
     if not rb:
@@ -451,18 +451,18 @@ def r4_selection(ctx):
         guards = [(U(cfg_.stmt[h].test), lab) for h, lab in cfg_.if_guards(nid)]
         nd = kwarg(c, "ndim") or (c.args[1] if len(c.args) > 1 else None)
         if nd is None:
-            ctx.unknown("C02.R4", f, st, "unsqueeze_right without its number of axes", construct="mask alignment")
+            ctx.unknown(rid, f, st, "unsqueeze_right without its number of axes", construct="mask alignment")
             reported = True
             continue
         grid = [(o, t, ndim_val(nd, o, t)) for o in range(0, 5) for t in range(0, o + 1)]
         if any(v is None for _, _, v in grid):
-            ctx.unknown("C02.R4", f, st, f"cannot evaluate the number of trailing axes `{U(nd)[:60]}` given to the mask", construct="mask alignment")
+            ctx.unknown(rid, f, st, f"cannot evaluate the number of trailing axes `{U(nd)[:60]}` given to the mask", construct="mask alignment")
             reported = True
             continue
         bad = [(o, t, v) for o, t, v in grid if v != o - t]
         if bad:
             o, t, v = bad[0]
-            ctx.violation("C02.R4", f, st, f"the mask gets `{U(nd)[:60]}` trailing axes: {v} instead of {o - t} for a {o}-dimensional value and a {t}-dimensional mask - the selection then broadcasts "
+            ctx.violation(rid, f, st, f"the mask gets `{U(nd)[:60]}` trailing axes: {v} instead of {o - t} for a {o}-dimensional value and a {t}-dimensional mask - the selection then broadcasts "
                           "to another shape or lines the mask up with another axis than the individuals", construct="mask alignment")
             reported = True
             continue
@@ -470,7 +470,7 @@ def r4_selection(ctx):
             aligned.append(st)
     if reported:
         return
-    ctx.check(bool(aligned), "C02.R4", f, aligned[0] if aligned else lp, "with right_broadcasting the mask is extended by old.ndim - mask.ndim trailing axes (individuals stay on the leading axis)",
+    ctx.check(bool(aligned), rid, f, aligned[0] if aligned else lp, "with right_broadcasting the mask is extended by old.ndim - mask.ndim trailing axes (individuals stay on the leading axis)",
               "with right_broadcasting (the default, used by the samplers) the mask is no longer extended on the right: a (n_individuals,) mask is lined up with the LAST axis of the values",
               construct="mask alignment")
 
@@ -568,6 +568,21 @@ def r7_auto_fork_scoped(ctx, rid="C02.R7", title=None):
               "and later rejected proposals are not (or wrongly) reverted")
 
 
+def r8_clone_keeps_the_snapshot(ctx, rid="C02.R8"):
+    """`state.clone(keep_last_fork=True)` hands a copy on which the pending proposal can still be rejected: the clone's snapshot must be a
+    copy of the source's *snapshot* (the values before the proposal) - a snapshot rebuilt from the current values 'restores' the proposal."""
+    from ..astq import canon_lines
+    ctx.rule(rid, "State.clone(keep_last_fork=True): the clone's snapshot is a copy of the source's snapshot", 1)
+    f = ctx.ix.func(STATE, "State.clone", rid)
+    L = canon_lines(f.node, False, True)
+    sets = [ln for ln in L if "._last_fork = " in ln]
+    text = "; ".join(sets)
+    confirmed = {ln for ln in sets if ln.endswith("._last_fork = copy.deepcopy($0._last_fork)") or ln.endswith("._last_fork = $0._last_fork.copy()") or ln.endswith("._last_fork = dict($0._last_fork)")}
+    ctx.form(rid, f, f.node, text, {text} if sets and len(confirmed) == len(sets) else set(), ["$0._last_fork"], "clone._last_fork = copy of self._last_fork",
+             "the clone's snapshot is not taken from the source's snapshot: a revert on the clone does not bring back the values from before the pending proposal",
+             forbidden=[r"\$0\._values\["], construct="snapshot of the clone")
+
+
 def rules(ctx):
     r1_snapshot(ctx)
     r2_typestate(ctx)
@@ -576,6 +591,7 @@ def rules(ctx):
     r5_reads_before_partial_revert(ctx)
     r6_put_out_of_place(ctx)
     r7_auto_fork_scoped(ctx)
+    r8_clone_keeps_the_snapshot(ctx)
     ctx.trust("torch.where selects element-wise without arithmetic on the unselected operand")
     ctx.assume("samplers are the only callers of State.revert during sampling (checked for C13)")
 
